@@ -33,6 +33,10 @@ from . import pdu
 
 NO_DATASET = 0x0101
 
+# Fragment size (as a maximum PDU length) used when no maximum length is in force
+# (a maximum length of 0 means "no limit")
+UNLIMITED_MAX_PDU_LENGTH = 65536
+
 PRIORITY_LOW = 0x0002
 PRIORITY_MEDIUM = 0x0000
 PRIORITY_HIGH = 0x0001
@@ -75,7 +79,7 @@ def fragment(data_set, max_pdu_length, normal, last):
     :yield: tuple of bytes: fragment and its code
     :rtype: Tuple[bytes,int]
     """
-    maxsize = max_pdu_length - 6
+    maxsize = (max_pdu_length or UNLIMITED_MAX_PDU_LENGTH) - 6
     for chunk, has_next in chunks(data_set, maxsize):
         yield chunk, normal if has_next else last
 
@@ -95,7 +99,7 @@ def fragment_file(fp, max_pdu_length, normal, last):
     :yield: tuple of bytes: fragment and its code
     :rtype: Tuple[bytes,int]
     """
-    maxsize = max_pdu_length - 6
+    maxsize = (max_pdu_length or UNLIMITED_MAX_PDU_LENGTH) - 6
     while True:
         chunk = fp.read(maxsize)
         if not chunk:
